@@ -238,6 +238,9 @@ def announce_vpls(
         except IndexError:
             self.log_failure('issue parsing the vpls')
             await reactor.processes.answer_error(service)
+        except Exception as e:
+            self.log_exception(f'Unexpected error: {type(e).__name__}: {str(e)}', e)
+            await reactor.processes.answer_error(service)
 
     reactor.asynchronous.schedule(service, command, callback())
     return True
@@ -280,6 +283,9 @@ def withdraw_vpls(
             await reactor.processes.answer_error(service)
         except IndexError:
             self.log_failure('issue parsing the vpls')
+            await reactor.processes.answer_error(service)
+        except Exception as e:
+            self.log_exception(f'Unexpected error: {type(e).__name__}: {str(e)}', e)
             await reactor.processes.answer_error(service)
 
     reactor.asynchronous.schedule(service, command, callback())
@@ -414,6 +420,9 @@ def announce_flow(
         except IndexError:
             self.log_failure('issue parsing the flow')
             await reactor.processes.answer_error(service)
+        except Exception as e:
+            self.log_exception(f'Unexpected error: {type(e).__name__}: {str(e)}', e)
+            await reactor.processes.answer_error(service)
 
     reactor.asynchronous.schedule(service, command, callback())
     return True
@@ -456,6 +465,9 @@ def withdraw_flow(
             await reactor.processes.answer_error(service)
         except IndexError:
             self.log_failure('issue parsing the flow')
+            await reactor.processes.answer_error(service)
+        except Exception as e:
+            self.log_exception(f'Unexpected error: {type(e).__name__}: {str(e)}', e)
             await reactor.processes.answer_error(service)
 
     reactor.asynchronous.schedule(service, command, callback())
